@@ -243,13 +243,18 @@ def replaceBody (body' : Cls) : List Cls → List Cls
   | [] => []
   | c :: cs => if c.name == ws!"Body" then body' :: cs else c :: replaceBody body' cs
 
+/-- a fault response does not have to repeat the output soap headers: every envelope
+attr other than `Body` becomes optional -/
+def optionalUnlessBody (a : AttrM) : AttrM := if a.name == ws!"Body" then a else setMin0 a
+
 /-- `build_envelope_fault(definitions, port_type_operation, target)` -/
 def buildEnvelopeFault (d : Definitions) (po : PtOperation) (target : Cls) : Except Err Cls :=
   match target.inner.find? (fun c => c.name == ws!"Body") with
   | none => .error .runtimeError
   | some body => do
     let body' ← addFault d po target.ns body
-    pure (target.setInner (replaceBody body' target.inner))
+    -- for attr in target.attrs: if attr.name != "Body": min_occurs = 0
+    pure ((target.setInner (replaceBody body' target.inner)).setAttrs (target.attrs.map optionalUnlessBody))
 
 /-! ## `build_message_class` (rpc) -/
 
